@@ -322,13 +322,20 @@ def _scalar_like(fi, p):
     return True
 
 
-def _only_through_new_option(pkg, fi, dotted):
+def _is_new_function(fi):
+    """a helper the pinned API does not have (added together with the option that reaches it)"""
+    from ..absint import _api_snapshot
+    snap = _api_snapshot()
+    return fi.qualname not in snap
+
+
+def _only_through_new_option(pkg, fi, dotted, need_new=False):
     """the call is not made when the function is interpreted with every parameter symbolic except options added after the pinned API
     (those keep their defaults): `source = np.random if rng is None else np.random.default_rng(rng)`"""
     from ..absint import Interp, _is_new_param
     a = fi.node.args
     if not any(_is_new_param(fi, x.arg) for x in a.posonlyargs + a.args + a.kwonlyargs):
-        return False
+        return False              # no option was added to this function: nothing to keep at its default
     try:
         it = Interp(pkg)
         it.run(fi)
@@ -358,7 +365,7 @@ def rule_randomness(ctx, eff):
                     ctx.holds("C14.6", s.fi, node, cons, "sklearn estimator" + (" with explicit random_state" if rs else " drawing from numpy's global state"))
                 elif dotted.startswith("time.") and q.startswith("utils._Timer"):
                     ctx.holds("C14.6", s.fi, node, cons, "wall clock used only by the tic/toc timer (execution_time bookkeeping)")
-                elif _only_through_new_option(ctx.pkg, s.fi, dotted):
+                elif _only_through_new_option(ctx.pkg, s.fi, dotted) or (s.fi.qualname != fi.qualname and _is_new_function(s.fi) and _only_through_new_option(ctx.pkg, fi, dotted, need_new=True)):
                     ctx.holds("C14.6", s.fi, node, cons, "reached only through an option the documented API does not have (its default keeps numpy's global random state)")
                 else:
                     ctx.violation("C14.6", s.fi, node, cons, "nondeterminism source other than numpy's global random state: np.random.seed(s) no longer determines the output")
